@@ -126,3 +126,64 @@ pub fn bits_w<W: VInt>(case: &Value, mode: &str, rep: &mut Report) {
 pub fn bits_case(case: &Value, mode: &str, rep: &mut Report) {
     match case["W"].as_u64().unwrap() { 2 => bits_w::<U2>(case, mode, rep), 3 => bits_w::<U3>(case, mode, rep), 4 => bits_w::<U4>(case, mode, rep), 8 => bits_w::<u8>(case, mode, rep), w => panic!("unsupported W {}", w) }
 }
+
+/// impl -> spec driver: long random histories on the real StackCoder / QueueEncoder at real word sizes, with symbol codes
+/// (Exp-Golomb, Huffman) interleaved; the bit-level events are validated by AbsBits.tla, symbol round trips here.
+pub fn drive_bits_w<W: VInt>(f: &mut impl std::io::Write, rep: &mut Report, rng: &mut rand_xoshiro::Xoshiro256StarStar, n_events: usize) {
+    use constriction::symbol::exp_golomb::ExpGolomb;
+    use constriction::symbol::huffman::{DecoderHuffmanTree, EncoderHuffmanTree};
+    use rand::Rng;
+    use serde_json::json;
+    let wb = W::nbits() as usize;
+    let mut c = StackCoder::<W, Vec<W>>::new();
+    writeln!(f, "{}", json!({"ev": "new"})).unwrap();
+    let weights = [5u32, 1, 0, 2, 2, 9, 1];
+    let (he, hd) = (EncoderHuffmanTree::from_probabilities::<u32, _>(&weights), DecoderHuffmanTree::from_probabilities::<u32, _>(&weights));
+    let eg = ExpGolomb::<u32>::new();
+    let ctxv = json!({"k": "drive_bits", "W": wb});
+    let mut depth = 0usize;
+    for _ in 0..n_events {
+        rep.cases += 1;
+        match rng.gen_range(0..100) {
+            0..=39 => { let b = rng.gen_bool(0.5); c.write_bit(b).unwrap(); depth += 1; writeln!(f, "{}", json!({"ev": "w", "b": b as u8})).unwrap(); }
+            40..=64 => { let r = ReadBitStream::<Stack>::read_bit(&mut c).unwrap(); if r.is_some() { depth -= 1; } writeln!(f, "{}", json!({"ev": "r", "b": r.map(|b| b as u8).unwrap_or(2)})).unwrap(); }
+            65..=72 => { writeln!(f, "{}", json!({"ev": "len", "n": c.len(), "empty": c.is_empty()})).unwrap(); if depth % wb == 0 && depth > 0 { rep.class("len_at_word_boundary"); } }
+            73..=80 => { // guard twice + iter
+                let v1: Vec<W> = c.get_compressed().to_vec(); let v2: Vec<W> = c.get_compressed().to_vec(); let it = c.iter().count();
+                writeln!(f, "{}", json!({"ev": "inspect", "same": v1 == v2 && it == depth, "n": c.len()})).unwrap(); rep.class("guard"); }
+            81..=86 => { // export and re-import
+                let words = c.into_compressed().unwrap();
+                match StackCoder::<W, Vec<W>>::from_compressed(words.clone()) { Ok(k) => { c = k; writeln!(f, "{}", json!({"ev": "inspect", "same": true, "n": c.len()})).unwrap(); rep.class("reimport"); }
+                    Err(_) => { rep.mismatch(&ctxv, format!("from_compressed refused {:?} words returned by into_compressed", words.len())); return; } } }
+            87..=93 => { // a few symbols with Exp-Golomb (stack: encode, then decode in reverse)
+                let syms: Vec<u32> = (0..rng.gen_range(1..5)).map(|_| match rng.gen_range(0..4) { 0 => 0, 1 => u32::MAX, 2 => rng.gen::<u32>(), _ => rng.gen_range(0..100) }).collect();
+                let l0 = c.len();
+                for s in &syms { WriteBitStream::<Stack>::encode_symbol(&mut c, *s, &eg).unwrap(); }
+                for s in syms.iter().rev() { let d = ReadBitStream::<Stack>::decode_symbol(&mut c, &eg); if !matches!(d, Ok(x) if x == *s) { rep.mismatch(&ctxv, format!("Exp-Golomb symbol {} came back as {:?} (depth {})", s, d.ok(), depth)); return; } }
+                if c.len() != l0 { rep.mismatch(&ctxv, "length changed by encode/decode of Exp-Golomb symbols".into()); return; } rep.class("exp_golomb"); }
+            _ => { let syms: Vec<usize> = (0..rng.gen_range(1..9)).map(|_| rng.gen_range(0..weights.len())).collect();
+                let l0 = c.len();
+                c.encode_symbols_reverse(syms.iter().map(|s| (*s, &he))).unwrap();
+                for s in &syms { let d = ReadBitStream::<Stack>::decode_symbol(&mut c, &hd); if !matches!(d, Ok(x) if x == *s) { rep.mismatch(&ctxv, format!("Huffman symbol {} came back as {:?}", s, d.ok())); return; } }
+                if c.len() != l0 { rep.mismatch(&ctxv, "length changed by encode/decode of Huffman symbols".into()); return; } rep.class("huffman"); }
+        }
+    }
+    // queue: a long stream of symbols in FIFO order
+    let mut q = QueueEncoder::<W, Vec<W>>::new(); let mut expect = vec![];
+    for _ in 0..200 { let s = match rng.gen_range(0..4) { 0 => u32::MAX, 1 => 0, _ => rng.gen::<u32>() >> rng.gen_range(0..32) }; WriteBitStream::<Queue>::encode_symbol(&mut q, s, &eg).unwrap(); expect.push(s); let _ = q.get_compressed().len(); }
+    let total = q.len();
+    let mut d = q.into_decoder().unwrap();
+    for s in &expect { let r = ReadBitStream::<Queue>::decode_symbol(&mut d, &eg); if !matches!(r, Ok(x) if x == *s) { rep.mismatch(&ctxv, format!("queue: Exp-Golomb symbol {} came back as {:?} ({} bits in total)", s, r.ok(), total)); return; } }
+    if !d.maybe_exhausted() { rep.mismatch(&ctxv, "queue decoder not maybe_exhausted after the last symbol".into()); }
+    rep.checks += n_events as u64;
+}
+pub fn drive_bits(seed: u64, n_events: usize, out: &str) -> Report {
+    use rand::SeedableRng;
+    let mut rep = Report::default();
+    for (name, wb) in [("u8", 8), ("u16", 16), ("u32", 32), ("u64", 64), ("U3", 3)] {
+        let mut rng = rand_xoshiro::Xoshiro256StarStar::seed_from_u64(seed ^ 0xb175 ^ wb);
+        let mut f = std::io::BufWriter::new(std::fs::File::create(format!("{}.{}.ndjson", out, name)).unwrap());
+        match wb { 8 => drive_bits_w::<u8>(&mut f, &mut rep, &mut rng, n_events), 16 => drive_bits_w::<u16>(&mut f, &mut rep, &mut rng, n_events), 32 => drive_bits_w::<u32>(&mut f, &mut rep, &mut rng, n_events), 64 => drive_bits_w::<u64>(&mut f, &mut rep, &mut rng, n_events), _ => drive_bits_w::<U3>(&mut f, &mut rep, &mut rng, n_events) }
+    }
+    rep
+}
